@@ -756,6 +756,10 @@ func goCode(root string, unit string) string {
 		header("Model.GoSem", "Model.GoText", "Model.GoStrings", "Model.Style", "Generated.GoAnsih", "Generated.GoStyle")
 		text, errs := translateGemtext(root)
 		emit("gemtext/gemtext.go, plaintext/plaintext.go (the Markup struct, NewMarkup, Render, renderWithLinks)", text, errs)
+	case "hypertext":
+		header("Model.GoSem", "Model.GoText", "Model.GoStrings", "Model.GoHtml", "Model.Style", "Generated.GoAnsih", "Generated.GoStyle")
+		text, errs := translateHypertext(root)
+		emit("hypertext/hypertext.go (the structs, mergeText, block, getAttribute, situationalWrap, bad, renderNode, renderChildren, bulletedList, renderWithLinks, Render)", text, errs)
 	case "update":
 		header("Model.GoSem", "Model.GoSlices", "Model.GoCtl", "Model.GoConv", "Model.Mime", "Generated.GoFeed", "Generated.GoHistory")
 		text, errs := translateUpdate(root)
